@@ -18,7 +18,7 @@ Section Structured.
   Proof. intros [Hw [Hg [Ha Hc]]]. now apply (nested_rounds def retrieve txt 998 d ts). Qed.
 
   Lemma members_resolve d tss : Forall (tok_ok d) tss ->
-    exists ss, Forall2 (fun x y => expand_rec def retrieve 999 x = Ok y)
+    exists ss, Forall2 (fun x y => expand_rec_old def retrieve 999 x = Ok y)
                        (map (fun ts => CStr (flatten ts)) tss) (map CStr ss) /\
                map unescape ss = map (mean txt d) tss.
   Proof.
@@ -31,16 +31,96 @@ Section Structured.
   Lemma escape_strs ss : escape_dollars (CList (map CStr ss)) = CList (map CStr (map unescape ss)).
   Proof. cbn [escape_dollars]. f_equal. rewrite !map_map. reflexivity. Qed.
 
+  (* ---- the shared expansion counter: a closed-form bound -------------------------------------------------------
+     Members of a list and the text of an expandedValue share Resolver.expansions.  For token strings every member
+     spends exactly its own measure [cost], so the whole run spends at most the SUM of the measures. *)
+  Definition tinv (d : nat) (ts : list tok) : Prop :=
+    wf def retrieve (nval txt) ts /\ good def retrieve txt d ts /\ nanchored txt d ts.
+
+  Definition step (ts : list tok) : list tok :=
+    match first_ref ts with Some n => nsubst txt n ts | None => ts end.
+  Definition has_ref (ts : list tok) : bool := match first_ref ts with Some _ => true | None => false end.
+  Definition CF (ts : list tok) : cv := CStr (flatten ts).
+
+  Lemma spent_no_ref ts : wf def retrieve (nval txt) ts -> first_ref ts = None -> spent def retrieve (CF ts) = 0.
+  Proof.
+    intros Hwf Hf. unfold CF. cbn [spent]. unfold spent_string.
+    rewrite (last_round def retrieve (nval txt) ts Hwf Hf).
+    destruct (negb (contains [cDollar; cOpen] (flatten ts)) || negb (has_char cClose (flatten ts))); [reflexivity|].
+    now rewrite (find_uri_wf def retrieve (nval txt) ts Hwf), Hf.
+  Qed.
+
+  Lemma ev_tok d ts : tinv d ts ->
+    expand_value def retrieve (CF ts) = Ok (CF (step ts), has_ref ts) /\
+    spent def retrieve (CF ts) + cost txt d (step ts) = cost txt d ts /\ tinv d (step ts).
+  Proof.
+    intros [Hwf [Hg Ha]]. unfold step, has_ref, CF. destruct (first_ref ts) as [n|] eqn:Hf.
+    - split; [|split].
+      + rewrite expand_value_str. now apply (nested_round def retrieve txt ts n d).
+      + rewrite (spent_round def retrieve (nval txt) ts n Hwf (nanchored_anchored txt d ts Ha) Hf).
+        pose proof (cost_nsubst_exact def retrieve txt n d ts Hg). lia.
+      + split; [now apply (wf_nsubst def retrieve txt n d)|split; [now apply good_nsubst|now apply (nanchored_nsubst def retrieve txt)]].
+    - split; [|split].
+      + rewrite expand_value_str. now apply (last_round def retrieve (nval txt)).
+      + fold (CF ts). rewrite (spent_no_ref ts Hwf Hf). reflexivity.
+      + repeat split; assumption.
+  Qed.
+
+  Definition csum (d : nat) (tss : list (list tok)) : nat := list_sum (map (cost txt d) tss).
+
+  Lemma ev_toks d tss : Forall (tinv d) tss ->
+    expand_list def retrieve (map CF tss) = Ok (map CF (map step tss), existsb has_ref tss) /\
+    spent def retrieve (CList (map CF tss)) + csum d (map step tss) = csum d tss /\ Forall (tinv d) (map step tss).
+  Proof.
+    induction 1 as [|ts l Hts Hl [IH1 [IH2 IH3]]]; [repeat split; constructor|].
+    destruct (ev_tok d ts Hts) as [E1 [E2 E3]].
+    cbn [map expand_list existsb]. rewrite E1, IH1. split; [reflexivity|]. split; [|now constructor].
+    cbn [spent map] in *. unfold csum in *. cbn [map]. rewrite !lsum_cons. lia.
+  Qed.
+
+  Definition V (tss : list (list tok)) (tso : list tok) : cv := CExp (CList (map CF tss)) (flatten tso).
+
+  Lemma ev_V d tss tso : Forall (tinv d) tss -> tinv d tso ->
+    expand_value def retrieve (V tss tso) = Ok (V (map step tss) (step tso), existsb has_ref tss || has_ref tso) /\
+    spent def retrieve (V tss tso) + (csum d (map step tss) + cost txt d (step tso)) = csum d tss + cost txt d tso /\
+    Forall (tinv d) (map step tss) /\ tinv d (step tso).
+  Proof.
+    intros Hm Ho. destruct (ev_toks d tss Hm) as [E1 [E2 E3]]. destruct (ev_tok d tso Ho) as [F1 [F2 F3]].
+    unfold V. rewrite ev_exp, ev_list, E1.
+    unfold CF in F1. rewrite expand_value_str in F1. rewrite F1.
+    split; [reflexivity|]. split; [|auto].
+    cbn [spent]. rewrite ev_list, E1. fold (spent def retrieve (CList (map CF tss))).
+    change (spent_string def retrieve (flatten tso)) with (spent def retrieve (CF tso)). change (list_sum (map (spent def retrieve) (map CF tss))) with (spent def retrieve (CList (map CF tss))). lia.
+  Qed.
+
+  Lemma shared_counter_bound f : forall d tss tso,
+    Forall (tinv d) tss -> tinv d tso ->
+    total_spent def retrieve f (V tss tso) <= csum d tss + cost txt d tso.
+  Proof.
+    induction f as [|f IH]; intros d tss tso Hm Ho; [apply Nat.le_0_l|].
+    destruct (ev_V d tss tso Hm Ho) as [E [Hs [Hm' Ho']]].
+    cbn [total_spent]. rewrite E. destruct (existsb has_ref tss || has_ref tso); [|apply Nat.le_0_l].
+    specialize (IH d _ _ Hm' Ho'). lia.
+  Qed.
+
+  Lemma tok_ok_tinv d ts : tok_ok d ts -> tinv d ts.
+  Proof. intros [H1 [H2 [H3 _]]]. repeat split; assumption. Qed.
+
   Lemma list_of_token_strings n ret d tss tso :
     name_ok n = true -> ref_ok def n = true ->
     expand_uri def retrieve (ref_text n) = Ok ret ->
     r_raw ret = CList (map (fun ts => CStr (flatten ts)) tss) ->
     as_string ret = Some (flatten tso) ->
     Forall (tok_ok d) tss -> tok_ok d tso ->
+    1 + csum d tss + cost txt d tso <= max_expansions ->
     resolve_string def retrieve (ref_text n)
     = Ok (CExp (CList (map (fun ts => CStr (mean txt d ts)) tss)) (mean txt d tso)).
   Proof.
-    intros Hn Hok He Hraw Hs Hm Ho.
+    intros Hn Hok He Hraw Hs Hm Ho Hb.
+    assert (Hb' : 1 + total_spent def retrieve 999 (CExp (r_raw ret) (flatten tso)) <= max_expansions).
+    { rewrite Hraw.
+      pose proof (shared_counter_bound 999 d tss tso (Forall_impl _ (tok_ok_tinv d) Hm) (tok_ok_tinv d tso Ho)) as Hc.
+      unfold V, CF in Hc. lia. }
     destruct (members_resolve d tss Hm) as [ss [Hss Hun]].
     destruct (tok_ok_str d tso Ho) as [so [Hso Huo]].
     rewrite (whole_value_structured def retrieve n ret (flatten tso) (CList (map CStr ss)) so); auto.
@@ -75,10 +155,11 @@ Section Structured.
     r_raw ret = CMap (map (fun kv => (fst kv, CStr (flatten (snd kv)))) kvs) ->
     as_string ret = Some (flatten tso) ->
     Forall (fun kv : str * list tok => tok_ok d (snd kv)) kvs -> tok_ok d tso ->
+    1 + total_spent def retrieve 999 (CExp (r_raw ret) (flatten tso)) <= max_expansions ->
     resolve_string def retrieve (ref_text n)
     = Ok (CExp (CMap (map (fun kv => (fst kv, CStr (mean txt d (snd kv)))) kvs)) (mean txt d tso)).
   Proof.
-    intros Hn Hok He Hraw Hs Hm Ho.
+    intros Hn Hok He Hraw Hs Hm Ho Hb.
     destruct (entries_resolve d kvs Hm) as [ss [Hss Hun]].
     destruct (tok_ok_str d tso Ho) as [so [Hso Huo]].
     rewrite (whole_value_structured def retrieve n ret (flatten tso)
